@@ -131,8 +131,10 @@ func runCTwin(c *ctx) error {
 			}
 			leg2 = strings.Join(parts, "|")
 		}
-		os.Remove(gf)
-		os.Remove(cf)
+		if os.Getenv("VERIF_KEEP") == "" {
+			os.Remove(gf)
+			os.Remove(cf)
+		}
 		hist["go:"+strings.SplitN(wres, ":", 2)[0]+" c:"+st]++
 		c.emit("ctable", args, leg1+"#"+st+"#"+cbytes+"#"+leg2)
 	}
